@@ -83,7 +83,23 @@ bool RSModel::MoveBefore(const EntityUID what, const ListIterator iWhere) {
 }
 
 bool RSModel::SetAliasFor(const EntityUID target, const std::string& newName, const bool substitue) {
-  return NotifyAndReturn(core.SetAliasFor(target, newName, substitue));
+  if (substitue || !core.Contains(target)) {
+    return NotifyAndReturn(core.SetAliasFor(target, newName, substitue));
+  }
+  // Note: without substitution mentions of the old name stop resolving, so dependant values are outdated
+  auto dependants = core.RSLang().Graph().ExpandOutputs({ target });
+  dependants.erase(target);
+  if (!core.SetAliasFor(target, newName, substitue)) {
+    return false;
+  }
+  for (const auto dependant : dependants) {
+    if (!IsBaseSet(core.GetRS(dependant).type)) {
+      Calculations().ResetFor(dependant);
+      Values().ResetFor(dependant);
+    }
+  }
+  NotifyModification();
+  return true;
 }
 
 void RSModel::ResetAliases() {
